@@ -145,10 +145,8 @@ func c06Gen(depth2 bool) *symir.Gen {
 	g.Nullable = true
 	g.Required = true
 	if v.Tier() > 0 {
-		// thorough: the same depth, wider — structs of up to 3 fields, unions of up to 3 branches, one more
-		// scalar kind and field name. (Full depth 2 squares the number of shapes and does not complete; depth is
+		// thorough: the same depth, wider — unions of up to 3 branches, one more scalar kind and field name. (Full depth 2 squares the number of shapes and does not complete; depth is
 		// covered by the spine, union-of-structs, intersection and constants families instead.)
-		g.Width = 3
 		g.UnionWidth = 3
 		g.UnionTailLeaves = symir.KScalar | symir.KNullScalar | symir.KRef
 		g.Scalars = []string{"string", "int64", "bool"}
